@@ -123,9 +123,41 @@ fn gen_segs(rng: &mut Rng) -> Value {
     json!({"op": "view", "segs": segs, "calls": calls})
 }
 
+/// a WALK along one line: each slice starts where the previous one ended (or one unit to either side, or at the same
+/// place again), spans of 0..3 units, over a line dense in astral characters -- the way a token list is cut out of a
+/// minified line.  What a view remembers of one request must not reach the next.
+fn gen_walk(rng: &mut Rng) -> Value {
+    let nlines = 1 + rng.below(3) as i64;
+    let mut text: Vec<u32> = vec![];
+    for l in 0..nlines {
+        if l > 0 { text.push(10); }
+        for _ in 0..2 + rng.below(14) {
+            text.push(match rng.below(5) { 0 | 1 => *rng.pick(&[0x1F600u32, 0x1D4B3, 0x10000, 0x10FFFF]), 2 => *rng.pick(&[0xE9u32, 0xFFFF, 0x3B8F]), _ => 97 + rng.below(26) as u32 });
+        }
+    }
+    let mut calls = vec![];
+    let mut line = rng.range(0, nlines - 1);
+    let mut col = rng.range(0, 3);
+    for _ in 0..2 + rng.below(14) {
+        let n = rng.range(0, 3);
+        calls.push(json!({"op": "slice", "line": line, "c": col, "n": n}));
+        match rng.below(10) {
+            0 => { line = rng.range(0, nlines - 1); col = rng.range(0, 4); }       // another line, or a fresh start
+            1 => { col = (col - rng.range(1, 3)).max(0); }                          // back
+            2 => { col = col + n + 1; }                                               // one unit skipped
+            3 => { col = (col + n - 1).max(0); }                                      // one unit overlapping
+            4 => {}                                                                   // the same start again
+            5 => { calls.push(json!({"op": "get_line", "i": line})); col += n; }
+            _ => { col += n; }
+        }
+    }
+    json!({"op": "view", "text": text, "calls": calls})
+}
+
 pub fn gen(rng: &mut Rng, size: usize) -> Value {
     if rng.chance(1, 60) { return gen_rep(rng); }
     if rng.chance(1, 6) { return gen_segs(rng); }
+    if rng.chance(1, 6) { return gen_walk(rng); }
     let large = rng.chance(1, 40);
     let n = if large { 700 + rng.below(900) as usize } else { rng.below((size * 30) as u64 + 1) as usize };
     let text = gen_text(rng, n);
